@@ -37,7 +37,8 @@ FormulaVerdict(r) ==
 
 TextVerdict(r) ==
     LET tk == Tokenize(r.chars) IN
-    IF tk.ok # r.tok_ok THEN "tokenizer Ok/Err differs"
+    IF tk.loose /\ (~r.tok_ok \/ ~r.parse_ok) THEN ""       \* a literal beyond usize may be rejected
+    ELSE IF tk.ok # r.tok_ok THEN "tokenizer Ok/Err differs"
     ELSE IF tk.ok /\ tk.toks # r.toks THEN "token list differs"
     ELSE LET p == ParseText(r.chars) IN
          IF p.ok # r.parse_ok THEN (IF r.parse_ok THEN "accepted a text that is not a sentence" ELSE "rejected a sentence")
